@@ -94,6 +94,8 @@ def part_a():
         ('C14', last_call('request'), r'"ret":"ptr"', '"ret":"nullopt"', 'wrong return'),
         ('C14', last_call('h_drop'), r'"lv":false', '"lv":true,"k":"V","t":"int","s":"a","sh":true,"pe":true,"d":8,"v":[8,1],"tr":0,"att":false', 'storage survives its last owner'),
         ('C13', last_call('set_vertex'), r'("t":"vec","s":"ovm:position","sh":true,"pe":false,"d":0,"v":\[)0,12(\],"tr":1)', r'\g<1>5,12\g<2>', 'write to mesh 2 shows in mesh 1'),
+        ('C13', last_call('set_vertex'), r'"vdel":\[false,false\]', '"vdel":[false]', 'malformed line: deleted flags shorter than the vertex count (must be a verdict, not an evaluation error)'),
+        ('C14', last_call('request'), r'"trk":\[', '"trk":[99,', 'malformed line: tracker lists an unknown storage'),
     ]
     for prop, idx, pat, rep, what in corr:
         mod = list(lines)
